@@ -188,6 +188,20 @@ func (c *Ctx) checkHashCacheReset() {
 				if g != fn {
 					continue
 				}
+				// a method of the same receiver that clears the cache (h.resetHash())
+				for _, ci := range allCalls(g) {
+					h := ci.Common().StaticCallee()
+					if h == nil || len(h.Blocks) == 0 || len(ci.Common().Args) == 0 || !isRecv(ci.Common().Args[0]) || h == fn {
+						continue
+					}
+					for _, hi := range fnInstrs(h) {
+						if hs, isHS := hi.(*ssa.Store); isHS && isNilConst(hs.Val) {
+							if hfa, isFA := hs.Addr.(*ssa.FieldAddr); isFA && fieldName(hfa.X.Type(), hfa.Field) == "hash" && len(h.Params) > 0 && trace(hfa.X) == "p0" {
+								reset[ci.Block()] = true
+							}
+						}
+					}
+				}
 				for _, in := range fnInstrs(g) {
 					st, ok := in.(*ssa.Store)
 					if !ok {
